@@ -20,7 +20,7 @@ fn one_run(case: &AdfCase, script: Vec<(usize, bool)>, twoval: bool, id: String,
     let text = case.text();
     let n = case.n();
     let asts: Vec<Value> = case.asts.iter().map(|a| a.to_json_idx()).collect();
-    let res = guarded(30, move || {
+    let res = guarded(12, move || {
         let parser = AdfParser::default();
         parser.parse()(&text).unwrap();
         let mut adf = Adf::from_parser(&parser);
@@ -81,7 +81,7 @@ fn count_run(case: &AdfCase, heu: &'static str, id: String) -> Value {
     let text = case.text();
     let n = case.n();
     let asts: Vec<Value> = case.asts.iter().map(|a| a.to_json_idx()).collect();
-    let res = guarded(30, move || {
+    let res = guarded(12, move || {
         let parser = AdfParser::default();
         parser.parse()(&text).unwrap();
         let mut adf = Adf::from_parser(&parser);
@@ -123,6 +123,9 @@ pub fn main(args: &[String]) {
             let path = format!("{}_count_n{}.ndjson", prefix, n);
             let mut f = std::io::BufWriter::new(std::fs::File::create(&path).expect("cannot create out file"));
             for (ci, case) in cases.iter().enumerate() {
+                if give_up() {
+                    break;
+                }
                 for heu in ["a", "b"] {
                     writeln!(f, "{}", count_run(case, heu, format!("{}#{}#{}", case.id, ci, heu))).unwrap();
                     total += 1;
@@ -134,6 +137,9 @@ pub fn main(args: &[String]) {
             let path = format!("{}_n{}_{}.ndjson", prefix, n, if twoval { "tv" } else { "st" });
             let mut f = std::io::BufWriter::new(std::fs::File::create(&path).expect("cannot create out file"));
             for (ci, case) in cases.iter().enumerate() {
+                if give_up() {
+                    break;
+                }
                 for k in 0..3 {
                     let len = rng.gen_range(1..=5);
                     let script: Vec<(usize, bool)> = (0..len).map(|_| (rng.gen_range(0..n), rng.gen_bool(0.5))).collect();
